@@ -2631,6 +2631,11 @@ impl<'a, const HAS_CR: bool> Parser<'a, HAS_CR> {
                 self.take_pending_head_comment(self.last_open_bp_pos);
             }
             self.skip_to_eol();
+            // An empty (null) value node belongs at the end of the key's own line
+            // (as in `parse_mapping_entry`): at the next line's first byte it shares
+            // its position with a following quoted key (`a:\n- b:\n'c': 1`), which
+            // was then read as this entry's value.
+            let eol_pos = self.pos;
 
             // Look ahead to determine if this is a null value or a nested structure
             self.skip_newlines();
@@ -2652,6 +2657,7 @@ impl<'a, const HAS_CR: bool> Parser<'a, HAS_CR> {
                 if next_indent < indent || (next_indent == indent && !is_sequence_indicator) {
                     // Next line is at lower indent, or same indent but not a sequence
                     // - null value: emit empty value node
+                    self.pos = eol_pos;
                     self.set_ib();
                     self.write_bp_open();
                     self.write_bp_close();
